@@ -34,6 +34,21 @@ def cases(tier, seed):
         out.append({'id': 'h%d' % n, 'kind': 'history', 'expr': expr, 'input': inputs[0], 'inputs': inputs[1:], 'others': others, 'tags': list(tags)})
         for i, d in enumerate(inputs):
             out.append({'id': 'h%d.e%d' % (n, i), 'kind': 'eval', 'expr': expr, 'input': d, 'tags': ['step-of:h%d' % n]})
+    # expressions with variables registered on them (Expr.RegisterVars): assignments in every position, also outside
+    # any block, must not outlive the evaluation; the registered values are read, shadowed, re-bound
+    REG = ['[$limit, $limit := 1]', '[$limit, $limit := $limit + 1, $limit]', '$limit := $sum(nums)', '[$total, $total := $sum(nums)]', '$string($limit := 2) & $limit',
+           '($limit := 3; $limit)', '[$cfg.k, $cfg := {"k": "changed"}, $cfg.k]', '$count($seen := nums) & "/" & $count($seen)', '[$exists($seen), $seen := a]', '$limit + nums[0]', '$cfg.k & a',
+           '$map(nums, function($n){$limit := $n}) ~> $append($limit)', 'nums.($acc := $ + $limit)', '$lst ~> $append(nums[0])', '$lst ~> $reverse()', '$cfg ~> |$|{"k": a}|', '[$lst[0], $lst := nums, $lst[0]]',
+           '$limit ? ($limit := 0) : 7', '[$f, $f := function(){a}, $f()]', '$limit := $limit * 2', '[$limit := $limit * 2][0]']
+    for i in range(150 if tier == 'quick' else 8000):
+        n += 1
+        e = rng.choice(REG)
+        ds = [doc() for _ in range(rng.randint(2, 5))]
+        vars_ = {'limit': rng.choice([10, 0, 2.5]), 'cfg': {'k': 'orig', 'n': [1, 2]}, 'lst': [3, 1, 2]}
+        others = [rng.choice(REG + CTX_PROGS) for _ in range(rng.randint(0, 2))]
+        out.append({'id': 'h%d' % n, 'kind': 'history', 'expr': e, 'input': ds[0], 'inputs': ds[1:], 'others': others, 'vars': vars_, 'tags': ['registered']})
+        for j, d in enumerate(ds):
+            out.append({'id': 'h%d.e%d' % (n, j), 'kind': 'eval', 'expr': e, 'input': d, 'vars': vars_, 'tags': ['step-of:h%d' % n]})
     N = 500 if tier == 'quick' else 30000
     for i in range(N):
         g = Gen(rng, chaos=0.05, deny=('random', 'shuffle'))
@@ -66,7 +81,7 @@ def hist_vs_model(ck, part, res):
 
 def run(tier, seed, replay=None):
     return simple_run('C05', tier, seed, replay,
-        'histories of 2..5 Eval calls on one compiled expression with the same and different inputs, with 0..3 other expressions (other calls of the same built-ins under other contexts, '
+        'histories of 2..5 Eval calls on one compiled expression (also with variables registered on the expression and assignments to them in every position) with the same and different inputs, with 0..3 other expressions (other calls of the same built-ins under other contexts, '
         'chains, partials, transforms) evaluated in between; programs: context-defaulting/chain/partial/transform witnesses and generated programs over every node type; every step compared '
         'with a freshly compiled copy on the same input, with the stateless model, and String()/tree before = after; distinct = distinct (expression, inputs, others)',
         cases, owner_direct=('history', 'string_same', 'tree_same', 'repeat'), value_compare=False, panics_are='C09', post=hist_vs_model)
